@@ -13,6 +13,8 @@ macro_rules! dispatch {
             "C06" => $f(&props::hist2::C06, $($arg),*),
             "C07" => $f(&props::hist2::C07, $($arg),*),
             "C10" => $f(&props::hist2::C10, $($arg),*),
+            "C14" => $f(&props::attack::C14, $($arg),*),
+            "C15" => $f(&props::attack::C15, $($arg),*),
             "C16" => $f(&props::refeval::C16, $($arg),*),
             "C17" => $f(&props::refeval::C17, $($arg),*),
             "C18" => $f(&props::xorerr::C18, $($arg),*),
